@@ -78,6 +78,13 @@ type target struct {
 	Stores    map[string]act  // left-hand side text of an assignment -> recorded action (Keep [0]: the stored value)
 	LoopMarks map[int]act     // k-th loop in source order at any depth -> recorded action (the loop is not read)
 	LoopAny   bool            // with LoopBody N: N counts loops at any depth; no prologue (declarations only)
+	// ext_io.go
+	IO          bool            // I/O-style functions: Rets, IOStores, defer, select, parallel assignment, ... (see ext_io.go)
+	Rets        map[string]hint // call text or callee text -> {base name, "t0,t1,..."}: results of a call that are not one scalar
+	IOStores    map[string]act  // left-hand side text of an assignment -> recorded action (Keep [0]: the stored value)
+	StoreFields []string        // with an IOStores entry and a struct literal on the right: the literal's fields kept as arguments
+	LenSlices   []string        // slice variables represented by their length
+	AbsCalls    map[string]hint // callee text -> parameter (Z -> Typ) applied to the single argument
 }
 
 var targets = []target{
@@ -411,6 +418,10 @@ type tr struct {
 	loop     *loopCtx      // loopbody.go: set for a LoopBody target
 	pending  []string      // effects.go: let-bindings to be placed in front of the statement being executed
 	markFn   *ast.FuncDecl // ext_chain.go: the function whose loops LoopMarks numbers
+
+	// ext_io.go
+	dfrs    [][]ast.Stmt                 // bodies of the deferred functions seen so far
+	ioSynth map[*ast.ReturnStmt][]string // synthetic returns that end the deferred bodies
 }
 
 var coqKeywords = map[string]bool{"end": true, "at": true, "in": true, "as": true, "fun": true, "return": true, "match": true,
@@ -583,6 +594,9 @@ func (x *tr) expr(e ast.Expr) val {
 					if ft, ok := x.lookupField(sn, e.Sel.Name); ok {
 						ty := x.typeOfExpr(ft)
 						if !isBasic(ty) {
+							if v, ok := x.ioField(x.resolve(id.Name)+"_"+e.Sel.Name, ty); ok { // ext_io.go
+								return v
+							}
 							fail("field %s.%s has non-scalar type %s (add a hint)", sn, e.Sel.Name, ty)
 						}
 						return x.param(x.resolve(id.Name)+"_"+e.Sel.Name, ty)
@@ -888,6 +902,9 @@ func (x *tr) call(e *ast.CallExpr) val {
 	if v, ok := x.lenSlice(fn, e); ok { // ext_chain.go
 		return v
 	}
+	if v, ok := x.ioCall(fn, e); ok { // ext_io.go
+		return v
+	}
 	fail("call %s (add a hint)", src(x.p.fset, e))
 	return val{}
 }
@@ -919,6 +936,9 @@ func (x *tr) retTuple(vs []string) string {
 }
 
 func (x *tr) errVal(e ast.Expr) string {
+	if v, ok := x.ioErrVal(e); ok { // ext_io.go
+		return v
+	}
 	s := src(x.p.fset, e)
 	if s == "nil" {
 		return "0%Z"
@@ -1075,6 +1095,9 @@ func (x *tr) exec1(stmts []ast.Stmt, rest [][]ast.Stmt) string { // called throu
 	push := func() [][]ast.Stmt { // continuation = tail then rest
 		r := append([][]ast.Stmt{}, rest...)
 		return append(r, tail)
+	}
+	if out, ok := x.ioStmt(s, tail, rest); ok { // ext_io.go
+		return out
 	}
 	switch s := s.(type) {
 	case *ast.ReturnStmt:
@@ -1423,6 +1446,7 @@ func translate(root *rootT, t target) (def string, info outFn) {
 		fail("function not found")
 	}
 	x := &tr{root: root, p: p, t: t, params: map[string]string{}, vars: map[string]string{}, alias: map[string]string{}}
+	ioAddrAssigned = t.IO // ext_io.go
 	addVar := func(name string, te ast.Expr) {
 		if name == "_" {
 			return
@@ -1576,6 +1600,7 @@ func main() {
 		}
 	}
 	b.WriteString(paramsModule(infos)) // ext_isostat.go: the parameter NAMES of every definition, for obligations that pin them
+	b.WriteString(ioFieldsModule())    // ext_io.go: the StoreFields lists
 	if err := os.WriteFile(*out, []byte(b.String()), 0o644); err != nil {
 		fmt.Fprintln(os.Stderr, err)
 		os.Exit(2)
